@@ -50,6 +50,44 @@ Theorem C12_rewards_py_is_the_model :
 Proof. exact gen_reward_vector_eq_R. Qed.
 Print Assumptions C12_rewards_py_is_the_model.
 
+(* ---- the tie to the marginal distributions of phasegen/distributions.py by a PIN (gen/MarginalsGen.v is re-checked against the
+   source on every run by translate/marginals2coq.py): entry (row j, column i) of dist.demes.cov is get_cov of the i-th and j-th
+   population - the centred second cross moment of CombinedReward([r, DemeReward(.)]) whose double sum is the variance
+   (C12_source_deme_covariances_sum_to_variance below); the same for loci; corr = cov / (std std) ---- *)
+From PG Require Import gen.MarginalsGen proofs.GenMarginalsEquiv.
+
+Theorem C12_distributions_py_deme_cov_entry :
+  forall (Rw Pop : Type) (comb_deme : Rw -> Pop -> Rw) (pmoment : Rw -> nat -> option (list Rw) -> bool -> R)
+         (r : Rw) (pops : list Pop) (i j : nat) (d : Pop), (i < length pops)%nat -> (j < length pops)%nat ->
+    nth i (nth j (MarginalDemeDistributions_cov Rw Pop comb_deme pmoment r pops) []) 0
+    = pmoment r 2%nat (Some [comb_deme r (nth i pops d); comb_deme r (nth j pops d)]) true.
+Proof. exact gen_deme_cov_entry. Qed.
+Print Assumptions C12_distributions_py_deme_cov_entry.
+
+Theorem C12_distributions_py_deme_cov_total :
+  forall (Rw Pop : Type) (comb_deme : Rw -> Pop -> Rw) (pmoment : Rw -> nat -> option (list Rw) -> bool -> R) (r : Rw) (pops : list Pop),
+    rsum (map rsum (MarginalDemeDistributions_cov Rw Pop comb_deme pmoment r pops))
+    = rsum (map (fun p2 => rsum (map (fun p1 => MarginalDemeDistributions_get_cov Rw Pop comb_deme pmoment r p1 p2) pops)) pops).
+Proof. exact gen_deme_cov_total. Qed.
+Print Assumptions C12_distributions_py_deme_cov_total.
+
+Theorem C12_distributions_py_locus_cov_entry :
+  forall (Rw : Type) (comb_locus : Rw -> nat -> Rw) (pmoment : Rw -> nat -> option (list Rw) -> bool -> R) (r : Rw) (nl i j : nat),
+    (i < nl)%nat -> (j < nl)%nat ->
+    nth i (nth j (MarginalLocusDistributions_cov Rw comb_locus pmoment r nl) []) 0
+    = pmoment r 2%nat (Some [comb_locus r i; comb_locus r j]) true.
+Proof. exact gen_locus_cov_entry. Qed.
+Print Assumptions C12_distributions_py_locus_cov_entry.
+
+Theorem C12_distributions_py_deme_corr_entry :
+  forall (Rw Pop : Type) (comb_deme : Rw -> Pop -> Rw) (pmoment : Rw -> nat -> option (list Rw) -> bool -> R) (sqrtf : R -> R)
+         (r : Rw) (pops : list Pop) (i j : nat) (d : Pop), (i < length pops)%nat -> (j < length pops)%nat ->
+    nth i (nth j (MarginalDemeDistributions_corr OpsR Rw Pop comb_deme pmoment sqrtf r pops) []) 0
+    = nth i (nth j (MarginalDemeDistributions_cov Rw Pop comb_deme pmoment r pops) []) 0
+      / (sqrtf (pmoment (comb_deme r (nth i pops d)) 2%nat None true) * sqrtf (pmoment (comb_deme r (nth j pops d)) 2%nat None true)).
+Proof. exact gen_deme_corr_entry. Qed.
+Print Assumptions C12_distributions_py_deme_corr_entry.
+
 From mathcomp Require Import all_ssreflect all_algebra.
 From PG Require Import proofs.ExpLaws.
 Set Implicit Arguments. Unset Strict Implicit. Unset Printing Implicit Defensive.
